@@ -50,3 +50,6 @@ Lemma dropN_app_exact {A} (a b : list A) : dropN (len a) (a ++ b) = b.
 Proof.
   unfold dropN, len. rewrite Nat2N.id. rewrite skipn_app, Nat.sub_diag, skipn_all. reflexivity.
 Qed.
+
+Lemma takeN_app_exact_nil {A} (a : list A) : takeN (len a) a = a.
+Proof. unfold takeN, len. rewrite Nat2N.id. apply firstn_all. Qed.
